@@ -94,6 +94,9 @@ type diffRun struct {
 
 func (r *diffRun) rcfg() *mast.RemoteConfig {
 	c := &mast.RemoteConfig{KeysLike: r.kc.zero, ValuesLike: r.vc.zero, StoreImmutablePartsWith: r.st, NodeCache: r.wcache}
+	if r.cfg.Marsh == "jsonreg" {
+		c.UnmarshalerUsesRegisteredTypes = true
+	}
 	if r.cfg.Cmp {
 		// a caller-supplied order with the same sign as the default one, but magnitudes other than 1 (like "a - b")
 		def := mast.DefaultKeyCompare(json.Marshal)
@@ -189,11 +192,16 @@ func kindOf(added, removed bool) int {
 	return 3
 }
 
-func (r *diffRun) rankV(v interface{}) int {
-	if v == nil {
-		return 0
+// rankPair: the value ranks of a reported difference (0 = no value on that side; a nil value of a set-like tree has a rank of its own)
+func (r *diffRun) rankPair(kind int, ov, nv interface{}) (int, int) {
+	o, n := 0, 0
+	if kind != 1 || ov != nil {
+		o = r.vc.Rank(ov)
 	}
-	return r.vc.Rank(v)
+	if kind != 2 || nv != nil {
+		n = r.vc.Rank(nv)
+	}
+	return o, n
 }
 
 var errStopTest = errors.New("callback failure requested by the harness")
@@ -205,7 +213,8 @@ func (r *diffRun) entryDiff(nm, om *mast.Mast, stopAt, failAt int) ([][]int, str
 	res, msg := guard(func() error {
 		return nm.DiffIter(ctx, om, func(added, removed bool, key, av, rv interface{}) (bool, error) {
 			n++
-			seq = append(seq, []int{kindOf(added, removed), r.kc.Rank(key), r.rankV(rv), r.rankV(av)})
+			o, nn := r.rankPair(kindOf(added, removed), rv, av)
+			seq = append(seq, []int{kindOf(added, removed), r.kc.Rank(key), o, nn})
 			if n == failAt {
 				return false, errStopTest
 			}
@@ -245,7 +254,8 @@ func (r *diffRun) cursorDiff(nm, om *mast.Mast) ([][]int, string, bool, string) 
 			case mast.DiffType_Remove:
 				kind = 2
 			}
-			seq = append(seq, []int{kind, r.kc.Rank(d.Key), r.rankV(d.OldValue), r.rankV(d.NewValue)})
+			o, n := r.rankPair(kind, d.OldValue, d.NewValue)
+			seq = append(seq, []int{kind, r.kc.Rank(d.Key), o, n})
 		}
 		return fmt.Errorf("diff cursor does not end")
 	})
@@ -334,6 +344,12 @@ func diffCase(id int, seed int64, out *json.Encoder, big bool) {
 	cfg.Cmp = rng.Intn(4) == 0 && cfg.KT != "struct"
 	cfg.NF = []string{"bin", "v1"}[rng.Intn(2)]
 	cfg.Cache = "none"
+	if !big && rng.Intn(8) == 0 {
+		// whole-node decoding ("registered types"), with values that may be nil (trees used as sets)
+		cfg.Marsh = "jsonreg"
+		cfg.KT, cfg.VT = "string", []string{"string", "nilstr"}[rng.Intn(2)]
+		cfg.Cmp = false
+	}
 	if big {
 		cfg.NK = 300 + rng.Intn(1500)
 		cfg.Bf = []uint{2, 3, 4, 16, 16}[rng.Intn(5)]
